@@ -255,6 +255,19 @@ def _perp(n):
     return u / np.linalg.norm(u)
 
 
+def icode_runs(base):
+    import dataclasses
+    from rnapolis.tertiary import Structure3D
+    res, seen = [], {}
+    for r in base.residues:
+        k = seen.get(r.auth.chain, 0)
+        seen[r.auth.chain] = k + 1
+        auth = dataclasses.replace(r.auth, number=10 + k // 3, icode=[None, "A", "B"][k % 3])
+        atoms = tuple(dataclasses.replace(a, auth=auth, label=None) for a in r.atoms)
+        res.append(dataclasses.replace(r, auth=auth, label=None, atoms=atoms))
+    return Structure3D(res)
+
+
 def structures(ctx, kinds=("corpus", "moved", "jitter", "reversed", "thin", "thin-base"), big=False):
     """yield (name, kind, Structure3D) with grid-snapped coordinates"""
     rng = ctx.rng
@@ -276,6 +289,10 @@ def structures(ctx, kinds=("corpus", "moved", "jitter", "reversed", "thin", "thi
             yield f"synthetic-stack-{t}", "synthetic-stack", stack_placements(rng, 16)
     for name in files:
         base = geo.snapped(geo.load3d(name))
+        if "icode-runs" in kinds and all(r.auth is not None for r in base.residues):
+            # neighbouring residues that differ ONLY by their insertion code (10, 10A, 10B, 11, 11A, ...): the residue order must
+            # still be (chain, number, insertion code)
+            yield name, "icode-runs", icode_runs(base)
         if "corpus" in kinds:
             yield name, "corpus", base
         if "moved" in kinds:
